@@ -89,7 +89,29 @@ func (c *FnCtx) run() {
 		}
 	}
 	c.entry.reach = st.reach
+	if c.fc.Refines != "" {
+		ic := c.eng.cs.Funcs[c.fc.Refines]
+		if ic == nil {
+			panic(specErr{"refines: no contract for " + c.fc.Refines})
+		}
+		// the interface contract's ghosts and requires, evaluated on entry
+		renv := &Env{c: c, st: c.entry, old: c.entry, vars: map[string]Val{}, fn: fn}
+		for _, g := range ic.Ghosts {
+			if _, dup := c.ghosts[g.Name]; !dup {
+				c.ghosts[g.Name] = renv.eval(g.E)
+			}
+		}
+		var hyp []string
+		for _, cl := range ic.Clauses {
+			if cl.Kind == "requires" {
+				hyp = append(hyp, renv.evalBool(cl.E))
+			}
+		}
+		c.refineHyp = c.define("iface.req", sBool, and(hyp...))
+		c.refineOf = ic
+	}
 	c.findLoops()
+	c.checkFrame()
 	for _, cl := range c.fc.Clauses {
 		if cl.Kind == "assert" || cl.Kind == "assume" || cl.Kind == "ghostat" {
 			c.ghostAt = append(c.ghostAt, ghostClause{cl: cl})
@@ -106,6 +128,19 @@ func (c *FnCtx) run() {
 	c.edges[edge{nil, fn.Blocks[0]}] = edgeState{st: st, cond: st.reach}
 	for _, b := range order {
 		c.execBlock(b)
+	}
+	// every anchored clause must have found its source line: a contract that no
+	// longer maps onto the code cannot be checked (reported, never skipped)
+	for _, g := range c.ghostAt {
+		if !g.done {
+			what := g.cl.Kind
+			panic(specErr{fmt.Sprintf("%s clause anchored at %q (occurrence %d) did not find that source line on any reachable path — the contract no longer maps onto the code", what, g.cl.At, g.cl.AtOrd)})
+		}
+	}
+	for _, cl := range c.fc.Clauses {
+		if cl.Kind == "ensures" && cl.At != "" && !c.ensuresAtSeen[cl.At] {
+			panic(specErr{fmt.Sprintf("ensures clause anchored at return %q did not find that return statement — the contract no longer maps onto the code", cl.At)})
+		}
 	}
 }
 
@@ -667,8 +702,19 @@ func (c *FnCtx) ghostAsserts(st *State, in ssa.Instruction) {
 		g.done = true
 		env := c.loopEnv(st)
 		if g.cl.Kind == "ghostat" {
-			// the ghost variable is a constant fixed on the paths through this line
-			c.assume(st, eq(c.ghosts[g.cl.Name].(VInt).T, env.evalInt(g.cl.E)))
+			v := env.eval(g.cl.E)
+			if iv, ok := v.(VInt); ok {
+				// the ghost variable is a constant fixed on the paths through this line
+				c.assume(st, eq(c.ghosts[g.cl.Name].(VInt).T, iv.T))
+				continue
+			}
+			// composite ghost (e.g. a slice value): a snapshot usable after this point
+			ts, ss := flatten(v), leafSorts(v)
+			for i := range ts {
+				ts[i] = c.define("g."+g.cl.Name, ss[i], ts[i])
+			}
+			v, _ = rebuild(v, ts)
+			c.ghosts[g.cl.Name] = v
 			continue
 		}
 		cond := env.evalBool(g.cl.E)
@@ -1273,7 +1319,42 @@ func (c *FnCtx) execReturn(st *State, in *ssa.Return) {
 		if name == "" {
 			name = fmt.Sprint(n)
 		}
-		c.oblige(st, "post", name+"@"+c.eng.srcLine(in.Pos()), in.Pos(), env.evalBool(cl.E), "postcondition: "+cl.Text, cl.Tags)
+		if cl.At != "" && cl.At != c.eng.srcLine(in.Pos()) {
+			continue
+		}
+		if cl.At != "" && cl.AtOrd > 0 && c.occurrence(in.Pos()) != fmt.Sprintf(" #%d", cl.AtOrd) {
+			continue
+		}
+		if cl.At != "" {
+			if c.ensuresAtSeen == nil {
+				c.ensuresAtSeen = map[string]bool{}
+			}
+			c.ensuresAtSeen[cl.At] = true
+		}
+		penv := env
+		if cl.At != "" {
+			// clauses tied to one return statement may mention the locals in scope there
+			e2 := *env
+			e2.cells = true
+			penv = &e2
+		}
+		c.oblige(st, "post", name+"@"+c.eng.srcLine(in.Pos()), in.Pos(), penv.evalBool(cl.E), "postcondition: "+cl.Text, cl.Tags)
+	}
+	if c.refineOf != nil {
+		// behavioural subtyping: under the interface's precondition the implementation meets the interface's postconditions
+		k := 0
+		for _, cl := range c.refineOf.Clauses {
+			if cl.Kind != "ensures" {
+				continue
+			}
+			k++
+			name := cl.Name
+			if name == "" {
+				name = fmt.Sprint(k)
+			}
+			c.oblige(st, "refines", name+"@"+c.eng.srcLine(in.Pos()), in.Pos(), implies(c.refineHyp, env.evalBool(cl.E)),
+				"refines "+c.fc.Refines+": "+cl.Text, cl.Tags)
+		}
 	}
 }
 
@@ -1305,4 +1386,70 @@ func (c *FnCtx) occurrence(pos token.Pos) string {
 		return ""
 	}
 	return fmt.Sprintf(" #%d", mine)
+}
+
+// checkFrame: every heap family the body may write (stores, built-ins, callee
+// frames, library models) must be covered by the contract's modifies clause —
+// callers havoc exactly that clause.
+func (c *FnCtx) checkFrame() {
+	if c.fc.IsPart {
+		return // partial contracts are never used at call sites of verified code
+	}
+	cells := map[*ssa.Alloc]bool{}
+	pre := map[string]bool{}
+	for _, b := range c.fn.Blocks {
+		for _, in := range b.Instrs {
+			if _, isDefer := in.(*ssa.Defer); isDefer {
+				continue // deferred calls are outside the caller-visible contract (stated assumption)
+			}
+			// writes into objects allocated by this very call are invisible to the caller
+			if st, ok := in.(*ssa.Store); ok && freshRoot(st.Addr) {
+				continue
+			}
+			if call, ok := in.(*ssa.Call); ok && !call.Call.IsInvoke() && len(call.Call.Args) > 0 && freshRoot(call.Call.Args[0]) {
+				if c.eng.libFor(callName(&call.Call), &call.Call) != nil {
+					continue
+				}
+			}
+			c.staticWrites(in, cells, pre)
+		}
+	}
+	var missing []string
+	for _, w := range sortedKeys(pre) {
+		ok := false
+		for _, m := range c.fc.Modifies {
+			if strings.HasPrefix(w, m) {
+				ok = true
+			}
+		}
+		if w == "" && c.fc.IsPart {
+			ok = true // partial contracts: abstracted calls are listed, the function is not called from verified code
+		}
+		if !ok {
+			missing = append(missing, "\""+w+"\"")
+		}
+	}
+	if len(missing) > 0 {
+		if c.fc.Pure {
+			panic(specErr{fmt.Sprintf("declared pure but may write heap families %s", strings.Join(missing, ", "))})
+		}
+		panic(specErr{fmt.Sprintf("modifies clause does not cover heap families written by the body: %s", strings.Join(missing, ", "))})
+	}
+}
+
+// freshRoot: the address/slice is syntactically rooted in an allocation made by this function.
+func freshRoot(v ssa.Value) bool {
+	switch x := v.(type) {
+	case *ssa.Alloc, *ssa.MakeSlice:
+		return true
+	case *ssa.FieldAddr:
+		return freshRoot(x.X)
+	case *ssa.IndexAddr:
+		return freshRoot(x.X)
+	case *ssa.Slice:
+		return freshRoot(x.X)
+	case *ssa.ChangeType:
+		return freshRoot(x.X)
+	}
+	return false
 }
